@@ -528,6 +528,14 @@ Theorem C10_source_locks : src_locks_ok = true.
 Proof. exact src_locks. Qed.
 Print Assumptions C10_source_locks.
 
+(* Initialisation and loading as the model has them (new_steps, reopen, load, load_okb), read off
+   the source: NewWithContext creates storage, blobs/, oci-layout, index.json in this order; each
+   file is written (atomically) only when opening it failed and validated / loaded otherwise;
+   loadIndex enters every index entry by digest, by name iff it has a reference name, and indexes it. *)
+Theorem C10_source_init : src_init_ok = true.
+Proof. exact src_init. Qed.
+Print Assumptions C10_source_init.
+
 (* The code before the repair (os.WriteFile on index.json itself, [inplace = true]):
    the theorem is false.  Witness: SaveIndex on the fresh store cut after open(O_TRUNC). *)
 Theorem C10_crash_safe_refuted_inplace :
